@@ -92,7 +92,7 @@ Qed.
     addressed to [c] and Attest accepted it in chain [c]'s state of that moment. *)
 Definition accepted_vote_on (c : Z) (l : list mop) (v : Z) (cl : claim) : Prop :=
   exists m1 y m2 known, l = m1 ++ y :: m2 /\ addressed c y = true /\ snd y = Vote v known cl /\
-    vote_ok (run (project c m1)) v known cl = true.
+    vote_ok (run (project c m1)) v v known cl = true.
 
 Lemma accepted_vote_lift c l v cl : accepted_vote (project c l) v cl -> accepted_vote_on c l v cl.
 Proof.
